@@ -5,13 +5,14 @@
 
 package websocket
 
-// Lock discipline (C09). The per-connection bookkeeping of the logging decorator is written by the
-// connection's handling goroutine ("main") and must not be touched by its helper goroutines.
+// Lock discipline (C09). The per-connection bookkeeping of the logging decorator is shared between
+// the connection's handling goroutine and its receiver, sender and summary goroutines.
 
 //@ type handlerWithLogs
 //@   guarded_by counter : counterMutex
-//@   confined sessionID, sessionUUID, participantID : main
+//@   guarded_by sessionID, sessionUUID, participantID : idsMutex
 //@   lock_level counterMutex = 70
+//@   lock_level idsMutex = 80
 
 //@ func (*websocket.handlerWithLogs).Receiver$1
 //@   goroutine receiver
